@@ -397,21 +397,81 @@ Section PtrQueue.
     repeat split; try lia. rewrite mod_idx by lia. unfold idx. destruct full; [specialize (Hf eq_refl)|]; ifs; lia.
   Qed.
 
+  (* occupancy as a function of the two pointers and the full bit *)
+  Definition cntf (n e d : nat) (full : bool) : nat := if full then n else if d <=? e then e - d else e + n - d.
+
+  Lemma v_count_cntf n e d f (r : nat -> M) : v_count n (mkV e d f r) = cntf n e d f.
+  Proof. reflexivity. Qed.
+  Lemma v_inc_wrap n p : p < n -> v_inc n p = wrap_inc n p.
+  Proof. intros. unfold v_inc, wrap_inc. ifs; lia. Qed.
+  Lemma cnt_enq n e d : e < n -> d < n -> cntf n e d false < n ->
+    cntf n (wrap_inc n e) d (wrap_inc n e =? d) = cntf n e d false + 1.
+  Proof. intros. unfold cntf, wrap_inc in *. ifs; lia. Qed.
+  Lemma cnt_deq n e d full : e < n -> d < n -> (full = true -> e = d) -> 0 < cntf n e d full ->
+    cntf n e (wrap_inc n d) false = cntf n e d full - 1.
+  Proof. intros He Hd Hf Hc. unfold cntf, wrap_inc in *. destruct full; [specialize (Hf eq_refl)|]; ifs; lia. Qed.
+  Lemma cnt_both n e d : e < n -> d < n -> 0 < cntf n e d false ->
+    cntf n (wrap_inc n e) (wrap_inc n d) false = cntf n e d false.
+  Proof. intros. unfold cntf, wrap_inc in *. ifs; lia. Qed.
+  Lemma cnt_full n e d full : e < n -> d < n -> (full = true -> e = d) -> negb full = (cntf n e d full <? n).
+  Proof. intros He Hd Hf. unfold cntf. destruct full; [specialize (Hf eq_refl)|]; ifs; lia. Qed.
+  Lemma cnt_empty n e d full : 0 < n -> e < n -> d < n -> (full = true -> e = d) ->
+    negb (negb full && (e =? d)) = (0 <? cntf n e d full).
+  Proof. intros Hn He Hd Hf. unfold cntf. destruct full; [specialize (Hf eq_refl)|]; cbn [negb andb]; ifs; lia. Qed.
+  Lemma cnt_free n e d full : e < n -> d < n -> (full = true -> e = d) ->
+    n - v_num_free n (mkV e d full (fun _ : nat => @None M)) (mkIn false false None false) = cntf n e d full.
+  Proof.
+    intros He Hd Hf. unfold v_num_free, v_empty, cntf. cbn [i_rst v_full v_enq_ptr v_deq_ptr].
+    destruct full; [specialize (Hf eq_refl)|]; cbn [negb andb]; ifs; lia.
+  Qed.
+
   Lemma vq_as_crtl n s i : 0 < n -> v_inv n s ->
     v_inv n (fst (vq_step n s i)) /\
     v2c n (fst (vq_step n s i)) = fst (crtl_step Normal n false (v2c n s) i) /\
     (i_rst i = false -> snd (vq_step n s i) = snd (crtl_step Normal n false (v2c n s) i)).
   Proof.
     intros Hn (Hd & He & Hf). destruct s as [e d full regs], i as [rst en m de]. cbn in Hd, He, Hf.
-    unfold vq_step, crtl_step, c_enq_xfer, c_deq_xfer, c_enq_rdy, c_deq_rdy, c_gate, c_ret, v2c, v_count, v_num_free,
-      v_empty, v_inv, v_inc, wrap_inc.
-    cbn [v_full v_enq_ptr v_deq_ptr v_regs c_head c_tail c_count c_regs i_rst i_enq i_msg i_deq is_pipe is_bypass andb orb fst snd].
-    destruct full; [specialize (Hf eq_refl); subst e|clear Hf];
-      destruct rst, en, de; cbn [negb andb orb];
-      rewrite ?orb_false_r, ?andb_true_r, ?andb_false_r; cbn [negb andb orb fst snd v_full v_enq_ptr v_deq_ptr v_regs].
-    all: ifs; cbn [negb andb orb fst snd v_full v_enq_ptr v_deq_ptr v_regs] in *;
-      repeat split; intros; try discriminate; try lia;
-      try (f_equal; lia); try (exfalso; lia).
+    pose proof (cnt_full n e d full He Hd Hf) as F1.
+    pose proof (cnt_empty n e d full Hn He Hd Hf) as F2.
+    assert (F4 : forall (r : nat -> M) x, n - v_num_free n (mkV e d full r) (mkIn false en x de) = cntf n e d full).
+    { intros r x. rewrite <- (cnt_free n e d full He Hd Hf). reflexivity. }
+    unfold vq_step, crtl_step, c_enq_xfer, c_deq_xfer, c_enq_rdy, c_deq_rdy, c_gate, c_ret, v2c, v_inv.
+    cbn [i_rst]. destruct rst.
+    - (* reset *)
+      unfold v_empty.
+      cbn [v_full v_enq_ptr v_deq_ptr v_regs c_head c_tail c_count c_regs i_rst i_enq i_msg i_deq is_pipe is_bypass andb orb fst snd].
+      rewrite !v_count_cntf. rewrite F1, ?orb_false_r. rewrite (andb_comm en).
+      repeat split; try lia; discriminate.
+    - rewrite F4. unfold v_empty.
+      cbn [v_full v_enq_ptr v_deq_ptr v_regs c_head c_tail c_count c_regs i_rst i_enq i_msg i_deq is_pipe is_bypass andb orb fst snd].
+      rewrite !v_count_cntf. rewrite F2, F1, ?orb_false_r. rewrite (andb_comm _ en).
+      set (c := cntf n e d full) in *.
+      rewrite !v_inc_wrap by assumption.
+      destruct (en && (c <? n)) eqn:Ex, (de && (0 <? c)) eqn:Dx; cbn [negb andb fst snd v_full v_enq_ptr v_deq_ptr v_regs].
+      + (* both: the queue is neither full nor empty *)
+        assert (Hfull : full = false) by (destruct full; [cbn [negb] in F1; rewrite <- F1 in Ex; rewrite andb_false_r in Ex; discriminate|reflexivity]).
+        subst full. cbn [andb]. pose proof (wrap_lt n e Hn). pose proof (wrap_lt n d Hn).
+        repeat split; try lia; try discriminate.
+        f_equal. subst c. apply cnt_both; try assumption. destruct de; [cbn [andb] in Dx; lia|discriminate].
+      + (* enqueue only *)
+        assert (Hfull : full = false) by (destruct full; [cbn [negb] in F1; rewrite <- F1 in Ex; rewrite andb_false_r in Ex; discriminate|reflexivity]).
+        subst full. pose proof (wrap_lt n e Hn).
+        assert (Hc : c < n) by (destruct en; [cbn [andb] in Ex; lia|discriminate]).
+        destruct (wrap_inc n e =? d) eqn:Efd; cbn [v_full v_enq_ptr v_deq_ptr].
+        * repeat split; try lia; try discriminate.
+          f_equal. subst c. rewrite <- cnt_enq by assumption. rewrite Efd. reflexivity.
+        * repeat split; try lia; try discriminate.
+          f_equal. subst c. rewrite <- cnt_enq by assumption. rewrite Efd. reflexivity.
+      + (* dequeue only *)
+        pose proof (wrap_lt n d Hn).
+        assert (Hc : 0 < c) by (destruct de; [cbn [andb] in Dx; lia|discriminate]).
+        assert (Hde : de = true) by (destruct de; [reflexivity|discriminate]). subst de. cbn [andb].
+        assert (Efn : (if full then false else full) = false) by (destruct full; reflexivity). rewrite Efn.
+        cbn [v_full v_enq_ptr v_deq_ptr].
+        repeat split; try lia; try discriminate.
+        f_equal. subst c. apply cnt_deq; assumption.
+      + (* nothing moves *)
+        repeat split; try lia; try assumption; try discriminate.
   Qed.
 
   Theorem vq_sim n : 0 < n -> sim1 Normal n (vq_step n) (v_abs n) (v_inv n) (fun _ _ => True).
